@@ -154,6 +154,9 @@ Proof. intros. simpl. destruct (work st c s) eqn:W; [eapply step_write_inv; eaut
 Lemma step_update_inv : forall c s i v, Inv (step st (Update c s i v)).
 Proof. intros. simpl. destruct (work st c s) eqn:W; [eapply step_write_inv; eauto | exact I]. Qed.
 
+Lemma step_overwrite_inv : forall c s bs, Inv (step st (Overwrite c s bs)).
+Proof. intros. simpl. destruct (work st c s) eqn:W; [eapply step_write_inv; eauto | exact I]. Qed.
+
 Lemma step_grow_inv : forall c s d, Inv (step st (Grow c s d)).
 Proof.
   intros c s d. simpl. destruct (work st c s) as [b|] eqn:W; [|exact I].
@@ -246,6 +249,7 @@ Proof.
   - apply step_get_inv; assumption.
   - apply step_append_inv; assumption.
   - apply step_update_inv; assumption.
+  - apply step_overwrite_inv; assumption.
   - apply step_grow_inv; assumption.
   - apply step_move_inv; assumption.
   - apply step_read_inv; assumption.
@@ -284,6 +288,7 @@ Proof.
     + destruct Hw as [Hw|[]]. subst. apply (inv_owned_lt st I) in Hb. lia.
   - destruct (work st c s) eqn:W; [|contradiction]. destruct Hw as [Hw|[]]. subst. eapply inv_work_owned; eauto.
   - destruct (work st c s) eqn:W; [|contradiction]. destruct Hw as [Hw|[]]. subst. eapply inv_work_owned; eauto.
+  - destruct (work st c s) eqn:W; [|contradiction]. destruct Hw as [Hw|[]]. subst. eapply inv_work_owned; eauto.
   - destruct (work st c s) eqn:W; [|contradiction]. destruct Hw as [Hw|[]]. subst. apply (inv_owned_lt st I) in Hb. lia.
   - contradiction.
   - contradiction.
@@ -301,6 +306,7 @@ Proof.
   - destruct (work st c s) eqn:W; simpl; [|reflexivity]. unfold upd_mem. mems; try reflexivity. exfalso; apply Hw; left; reflexivity.
   - destruct (work st c s) eqn:W; simpl; [|reflexivity]. unfold upd_mem. mems; try reflexivity. exfalso; apply Hw; left; reflexivity.
   - destruct (work st c s) eqn:W; simpl; [|reflexivity]. unfold upd_mem. mems; try reflexivity. exfalso; apply Hw; left; reflexivity.
+  - destruct (work st c s) eqn:W; simpl; [|reflexivity]. unfold upd_mem. mems; try reflexivity. exfalso; apply Hw; left; reflexivity.
   - destruct (work st c s') eqn:W; reflexivity.
   - destruct (work st c s) eqn:W; reflexivity.
   - destruct (work st c s) eqn:W; simpl; [|reflexivity]. unfold upd_mem. mems; try reflexivity. exfalso; apply Hw; left; reflexivity.
@@ -315,6 +321,7 @@ Lemma owned_mono_step : forall st o b, In b (owned st) -> In b (owned (step st o
 Proof.
   intros st o b H. destruct o; simpl.
   - destruct (match k with Some i => take i (pool st) | None => None end) as [[b' rest]|]; simpl; assumption.
+  - destruct (work st c s); simpl; assumption.
   - destruct (work st c s); simpl; assumption.
   - destruct (work st c s); simpl; assumption.
   - destruct (work st c s); simpl; assumption.
@@ -392,6 +399,12 @@ Proof.
     + rewrite W. simpl. rewrite Nat.eqb_refl. reflexivity.
     + rewrite Lw. destruct (work st c' s') as [b'|] eqn:W'; simpl; [|reflexivity].
       mems; [|reflexivity]. destruct (Hwi _ _ _ _ _ W W') as [? ?]. subst. exfalso. apply E. auto.
+  - (* Overwrite *)
+    rewrite Lw. destruct (work st c s) as [b|] eqn:W; simpl; [|split; assumption].
+    split; simpl; [|assumption]. intros c' s'. unfold upd_pw, upd_mem. keys.
+    + rewrite W. simpl. rewrite Nat.eqb_refl. reflexivity.
+    + rewrite Lw. destruct (work st c' s') as [b'|] eqn:W'; simpl; [|reflexivity].
+      mems; [|reflexivity]. destruct (Hwi _ _ _ _ _ W W') as [? ?]. subst. exfalso. apply E. auto.
   - (* Grow *)
     destruct (work st c s) as [b|] eqn:W; simpl; [|split; assumption].
     split; simpl; [|assumption]. intros c' s'. unfold upd_work, upd_mem. keys.
@@ -449,6 +462,8 @@ Proof.
   intros c [w ob] [w' ob'] o H [Aw Ao]. simpl in Aw.
   destruct o; simpl in H; subst; simpl; try (split; assumption).
   - split; simpl; [|exact Ao]. intros s0. unfold upd_pw. keys; [reflexivity | apply Aw].
+  - rewrite <- Aw. destruct (w c s) eqn:W; [|split; assumption]. split; simpl; [|exact Ao].
+    intros s0. unfold upd_pw. keys; [reflexivity | apply Aw].
   - rewrite <- Aw. destruct (w c s) eqn:W; [|split; assumption]. split; simpl; [|exact Ao].
     intros s0. unfold upd_pw. keys; [reflexivity | apply Aw].
   - rewrite <- Aw. destruct (w c s) eqn:W; [|split; assumption]. split; simpl; [|exact Ao].
